@@ -8,17 +8,20 @@ use harness::seqrun::{install_panic_hook, KeyT, World};
 use harness::{HashKind, SmallKey};
 use std::io::{BufRead, Write};
 
-fn leak_pool(items: &[&str]) -> Vec<&'static str> {
+/// Pool strings live in `store` (kept alive until every object of the case is gone) and are handed
+/// out as `&'static str` with addresses of their own (also the empty ones).
+fn make_pool(items: &[&str], store: &mut Vec<Box<str>>) -> Vec<&'static str> {
     items
         .iter()
         .map(|h| {
             let b = harness::unhex(h);
-            if b.is_empty() {
-                // an empty string with an address of its own
-                let buf: &'static str = Box::leak(String::from("x").into_boxed_str());
-                &buf[0..0]
+            let empty = b.is_empty();
+            let owned: Box<str> = if empty { String::from("x").into_boxed_str() } else { String::from_utf8(b).unwrap().into_boxed_str() };
+            let s: &'static str = unsafe { std::mem::transmute::<&str, &'static str>(&*owned) };
+            store.push(owned);
+            if empty {
+                &s[0..0]
             } else {
-                let s: &'static str = Box::leak(String::from_utf8(b).unwrap().into_boxed_str());
                 s
             }
         })
@@ -44,45 +47,98 @@ struct Totals {
     sweeps: u64,
     faults: u64,
     max_len: usize,
+    leak_checked: u64,
     by_op: std::collections::HashMap<String, u64>,
     by_result: std::collections::HashMap<String, u64>,
     keys: std::collections::HashMap<String, u64>,
     hashers: std::collections::HashMap<String, u64>,
 }
 
-fn run_case<K: KeyT>(case_no: u64, header: &str, hasher: HashKind, lines: &[String], sink: &mut Sink, tot: &mut Totals) {
-    let mut world: Option<World<K>> = None;
-    for l in lines {
-        let out = if l.starts_with("pool") {
-            let items: Vec<&str> = l.split_whitespace().skip(1).collect();
-            let pool = leak_pool(&items);
-            let n = pool.len();
-            world = Some(World::new(pool, hasher, case_no, header.to_string()));
-            format!("pool {n}")
-        } else {
-            match world.as_mut() {
-                Some(w) => w.step(l),
-                None => "bad-op".into(),
-            }
-        };
-        writeln!(sink.imp, "{out}").unwrap();
-    }
-    if let Some(mut w) = world {
-        w.sweep();
-        for o in &w.oracle {
-            writeln!(sink.oracle, "{o}").unwrap();
+/// Runs one case; returns the answers, the oracle lines and the net change of allocated bytes over
+/// the case (everything the case created has been dropped when it is measured).
+fn run_case_once<K: KeyT>(case_no: u64, header: &str, hasher: HashKind, lines: &[String], tot: Option<&mut Totals>, keep: bool) -> (Vec<String>, Vec<String>, isize) {
+    harness::seqrun::clear_last_panic();
+    let mut answers: Vec<String> = Vec::new();
+    let mut oracle: Vec<String> = Vec::new();
+    let mut stats = None;
+    let n0 = harness::net_bytes();
+    let delta;
+    {
+        let mut store: Vec<Box<str>> = Vec::new();
+        let mut world: Option<World<K>> = None;
+        let mut local: Vec<String> = Vec::with_capacity(lines.len());
+        for l in lines {
+            let out = if l.starts_with("pool") {
+                let items: Vec<&str> = l.split_whitespace().skip(1).collect();
+                let pool = make_pool(&items, &mut store);
+                let n = pool.len();
+                world = Some(World::new(pool, hasher, case_no, header.to_string()));
+                format!("pool {n}")
+            } else {
+                match world.as_mut() {
+                    Some(w) => w.step(l),
+                    None => "bad-op".into(),
+                }
+            };
+            local.push(out);
         }
-        tot.ops += w.stats.ops;
-        tot.checks += w.stats.oracle_checks;
-        tot.sweeps += w.stats.sweeps;
-        tot.faults += w.stats.faults;
-        tot.max_len = tot.max_len.max(w.stats.max_len);
-        merge(&mut tot.by_op, &w.stats.by_op);
-        merge(&mut tot.by_result, &w.stats.by_result);
-        // drop every object; a crash here is attributed to this case
-        w.slots.clear();
+        let mut local_oracle = Vec::new();
+        let mut local_stats = None;
+        if let Some(mut w) = world.take() {
+            w.sweep();
+            // drop every object first; a crash here is attributed to this case
+            w.slots.clear();
+            local_oracle = std::mem::take(&mut w.oracle);
+            local_stats = Some(std::mem::take(&mut w.stats));
+            drop(w);
+        }
+        drop(store);
+        harness::seqrun::clear_last_panic();
+        if keep {
+            answers = local;
+            oracle = local_oracle;
+            stats = local_stats;
+            delta = 0;
+        } else {
+            drop(local);
+            drop(local_oracle);
+            drop(local_stats);
+            delta = harness::net_bytes() - n0;
+        }
     }
-    tot.cases += 1;
+    if let (Some(tot), Some(st)) = (tot, stats.as_ref()) {
+        tot.ops += st.ops;
+        tot.checks += st.oracle_checks;
+        tot.sweeps += st.sweeps;
+        tot.faults += st.faults;
+        tot.max_len = tot.max_len.max(st.max_len);
+        merge(&mut tot.by_op, &st.by_op);
+        merge(&mut tot.by_result, &st.by_result);
+        tot.cases += 1;
+    }
+    (answers, oracle, delta)
+}
+
+fn run_case<K: KeyT>(case_no: u64, header: &str, hasher: HashKind, lines: &[String], sink: &mut Sink, tot: &mut Totals) {
+    let (answers, oracle, _delta) = run_case_once::<K>(case_no, header, hasher, lines, Some(tot), true);
+    for a in &answers {
+        writeln!(sink.imp, "{a}").unwrap();
+    }
+    for o in &oracle {
+        writeln!(sink.oracle, "{o}").unwrap();
+    }
+    // leak / bad-free check: measured on a second and third run of the same case, so that one-time
+    // lazy initialisations inside std or the dependencies are not mistaken for a leak
+    if case_no % 4 == 0 || lines.len() < 400 {
+        let (_, _, d1) = run_case_once::<K>(case_no, header, hasher, lines, None, false);
+        if d1 != 0 {
+            let (_, _, d2) = run_case_once::<K>(case_no, header, hasher, lines, None, false);
+            if d2 != 0 && d2 == d1 {
+                writeln!(sink.oracle, "C04 leak-or-bad-free :: net allocated bytes change by {d2} over the case although every object was dropped :: case {case_no} ({header})").unwrap();
+            }
+        }
+        tot.leak_checked += 1;
+    }
 }
 
 fn exec(prefix: &str, from_case: u64) {
@@ -140,8 +196,8 @@ fn exec(prefix: &str, from_case: u64) {
         format!("{{{}}}", v.iter().map(|(k, v)| format!("\"{k}\": {v}")).collect::<Vec<_>>().join(", "))
     };
     let stats = format!(
-        "{{\"cases\": {}, \"ops\": {}, \"oracle_checks\": {}, \"sweeps\": {}, \"faults\": {}, \"max_strings_in_a_case\": {}, \"ops_by_kind\": {}, \"results_by_class\": {}, \"key_types\": {}, \"hashers\": {}}}",
-        tot.cases, tot.ops, tot.checks, tot.sweeps, tot.faults, tot.max_len, j(&tot.by_op), j(&tot.by_result), j(&tot.keys), j(&tot.hashers)
+        "{{\"cases\": {}, \"ops\": {}, \"oracle_checks\": {}, \"sweeps\": {}, \"faults\": {}, \"cases_checked_for_leaks\": {}, \"max_strings_in_a_case\": {}, \"ops_by_kind\": {}, \"results_by_class\": {}, \"key_types\": {}, \"hashers\": {}}}",
+        tot.cases, tot.ops, tot.checks, tot.sweeps, tot.faults, tot.leak_checked, tot.max_len, j(&tot.by_op), j(&tot.by_result), j(&tot.keys), j(&tot.hashers)
     );
     std::fs::write(format!("{prefix}.stats"), stats).unwrap();
 }
